@@ -40,6 +40,7 @@ type attempt struct {
 	Children []int
 	Depth    int // depth of the issuing frame (0 for top-level)
 	Created  common.Address
+	HostCall bool // issued by the host while the VM was running (re-entrant call), not by an instruction
 }
 
 type shadowLog struct {
@@ -186,7 +187,19 @@ func buildShadow(l *h.Log, eip150 bool) *shadowLog {
 			}
 			switch e.Typ {
 			case h.CALL, h.CREATE, h.CREATE2:
-				if pending < 0 {
+				if pending < 0 && e.Typ == h.CALL {
+					// a call issued by the host (an Aspect or provider callback re-entering the EVM), not by an instruction
+					to := e.To
+					a := &attempt{Op: h.CALL, From: e.From, To: &to, Gas: e.Gas, GasKnown: true, Data: e.Input, DataOK: true, StepSeq: e.Seq, HostCall: true, Depth: d - 1}
+					a.Value, _ = uint256.FromBig(e.Value)
+					if a.Value == nil {
+						a.Value = new(uint256.Int)
+					}
+					newAttempt(a)
+					a.Entered, a.EnterSeq = true, e.Seq
+					stack = append(stack, shFrame{idx: a.Index, indexed: true, depth: d})
+					pending = -1
+				} else if pending < 0 {
 					sh.Problems = append(sh.Problems, fmt.Sprintf("Enter(%#x) at seq %d without a pending attempt", e.Typ, e.Seq))
 					stack = append(stack, shFrame{idx: parentIdx(), depth: d})
 				} else {
